@@ -725,6 +725,9 @@ func (s *session02) process(c Case, base *Case, br *res02) (*res02, int) {
 	} else {
 		st.add("twin_kind", c.TwinKind)
 	}
+	if k, ok := smallValueCapClass(c, r.sig, r.viol != nil); ok {
+		st.add("small_value_cap", k)
+	}
 	st.into(s.sum)
 	if r.internal >= 1 && !s.shapes[r.dumpStr] {
 		s.shapes[r.dumpStr] = true
@@ -849,6 +852,7 @@ func mainC02(seed uint64, n int, out string, rp *replayInput) {
 			"compared: every committed root hash and the shape dumped after the last commit; non-trivial = the final tree has at least one internal node; distinct = distinct final shape dumps among those"),
 		byContents: map[string]Case{}, rootOf: map[string]string{}, byRoot: map[string]Case{}, contentsOf: map[string]string{}, shapes: map[string]bool{}, sigOf: map[string]sigState{},
 	}
+	s.sum.Extra["finding_rules"] = findingRules
 	defer func() {
 		s.w.Close()
 		s.sum.Write(out)
